@@ -157,7 +157,10 @@ props_oracle_core = None   # set by props.py (avoids a circular import)
 def eng_prog(pid, tier, wd, known, replay=None):
     rng = random.Random(seed() * 104729 + 5)
     if replay is not None and replay.get("input", {}).get("prog"):
-        progs, skipped = [replay["input"]["prog"]], {}
+        rp = replay["input"]["prog"]
+        rp["kinds"] = {int(k): v for k, v in (rp.get("kinds") or {}).items()}
+        rp["extra_fields"] = {int(k): v for k, v in (rp.get("extra_fields") or {}).items()}
+        progs, skipped = [rp], {}
     else:
         n = 260 if tier == "quick" else 2500
         progs, skipped = gen_progs(rng, n, pid)
